@@ -115,7 +115,7 @@ def lenv(sh):
 QUICK_SHAPES3 = [[2, 2, 2], [1, 2, 2], [2, 1, 2], [1, 2, 1]]
 
 
-def pfc_family(prop, tag, entry, quick_bs=(2, 3), timeout_q=420, timeout_t=1500, extra_defs=None, quick_shapes=None, sym_n2=True, thorough_extra=True, **kw):
+def pfc_family(prop, tag, entry, quick_bs=(2, 3), timeout_q=420, timeout_t=1500, extra_defs=None, quick_shapes=None, sym_n2=True, thorough_extra=True, deep4=False, **kw):
     """the standard parameter sweep of one PFC harness entry:
        quick   : N=2 symbolic lengths (all shapes) + selected N=3 shapes, bucket sizes quick_bs
        thorough: every N=3,L=2 shape x bucketsize {2,3,4}; N=4,L=2 shapes; N=3,L=3 shapes; N=5,L=1"""
@@ -131,13 +131,16 @@ def pfc_family(prop, tag, entry, quick_bs=(2, 3), timeout_q=420, timeout_t=1500,
     for sh in (quick_shapes or QUICK_SHAPES3):
         for bs in quick_bs:
             mk(tag, 3, 2, bs, sh, Q, timeout_q)
+    if deep4:
+        mk(tag, 4, 2, 4, [2, 2, 2, 2], Q, max(timeout_q, 900))      # one bucket of four: deepest in-bucket scan of the quick tier
     if thorough_extra:
         for sh in shapes(3, 2):
             for bs in (2, 3, 4):
                 if sh in (quick_shapes or QUICK_SHAPES3) and bs in quick_bs: continue
                 mk(tag, 3, 2, bs, sh, T, timeout_t)
-        for sh in [[2, 2, 2, 2], [1, 2, 2, 1], [2, 1, 2, 2], [1, 1, 2, 2]]:
-            for bs in (2, 3):
+        for sh in [[2, 2, 2, 2], [1, 2, 2, 1], [2, 1, 2, 2], [1, 1, 2, 2], [1, 2, 2, 2]]:
+            for bs in (2, 3, 4, 5):
+                if sh == [2, 2, 2, 2] and bs == 4 and deep4: continue
                 mk(tag, 4, 2, bs, sh, T, timeout_t)
         for sh in [[3, 3, 3], [1, 2, 3], [3, 1, 2]]:
             mk(tag, 3, 3, 2, sh, T, timeout_t)
@@ -208,15 +211,41 @@ def kind_obs(prop, entries):
     return obs
 
 
+RPDAC_TUS = ['StringDictionaryRPDAC.cpp', 'StringDictionary.cpp', 'RePair/RePair.cpp', 'RePair/Coder/dictionary.cpp', 'utils/LogSequence.cpp', 'utils/VByte.cpp', 'utils/DAC_VLS.cpp'] + BITSEQ_TUS
+
+
+def rpdac(name, prop, entry, n, l, rules, sh=None, tier=Q, timeout=900):
+    defs = {'NSTR': n, 'LMAX': l, 'RULES': rules}
+    if sh is not None: defs['LENV'] = lenv(sh)
+    tot = n * (l + 1)
+    cdefs = {'IR2C_MAXBYTES': 32, 'IR2C_MAXELEMS': max(16, tot + 2), 'VS_CAP': 96}
+    return O(name, prop, 'h_rpdac.cpp', entry, RPDAC_TUS, defs=defs, cdefs=cdefs, unwind=max(n + 3, l + 4), tier=tier, timeout=timeout,
+             unwindset={'^(h_|_ZL)': (n + 2) * (l + 4), '_ZN7IRePair8compress': 2 * tot + 4, '_ZN21StringDictionaryRPDACC2': 2 * tot + 4, '_ZN7DAC_VLSC2': 2 * tot + 4},
+             bounds='RPDAC whole kind (real constructor, DAC_VLS, grammar consumer), %d strings %s over 0x02..0xFE, compressor replaced by a model grammar with %d rule(s)' %
+                    (n, ('of lengths %s' % sh) if sh else ('of 1..%d bytes' % l), rules))
+
+
+def rpdac_family(prop, tag, entry):
+    obs = []
+    obs.append(rpdac('%s.rpdac.%s.n2l2.r0' % (prop.lower(), tag), prop, entry, 2, 2, 0))
+    obs.append(rpdac('%s.rpdac.%s.n2l2.r1' % (prop.lower(), tag), prop, entry, 2, 2, 1))
+    obs.append(rpdac('%s.rpdac.%s.n3.len221.r1' % (prop.lower(), tag), prop, entry, 3, 2, 1, sh=[2, 2, 1]))
+    for sh in [[2, 2, 2], [1, 2, 2], [1, 1, 1], [2, 1, 2]]:
+        obs.append(rpdac('%s.rpdac.%s.n3.len%s.r1' % (prop.lower(), tag, ''.join(map(str, sh))), prop, entry, 3, 2, 1, sh=sh, tier=T, timeout=3600))
+    obs.append(rpdac('%s.rpdac.%s.n3.len333.r1' % (prop.lower(), tag), prop, entry, 3, 3, 1, sh=[3, 3, 3], tier=T, timeout=3600))
+    return obs
+
+
 def c01():
-    obs = pfc_family('C01', 'pfc', 'h_pfc_c01')
+    obs = pfc_family('C01', 'pfc', 'h_pfc_c01', deep4=True)
+    obs += rpdac_family('C01', 'c01', 'h_rpdac_c01')
     obs += pfc_family('C01', 'pfc.reload', 'h_pfc_saveload', quick_bs=(2,), quick_shapes=[[1, 2, 2]], sym_n2=False, timeout_q=600, thorough_extra=False)
     obs += dac_obs('C01', what=('access',))
     return obs
 
 
 def c02():
-    return pfc_family('C02', 'pfc', 'h_pfc_c02') + kind_obs('C02', ['guard'])
+    return pfc_family('C02', 'pfc', 'h_pfc_c02', deep4=True) + rpdac_family('C02', 'c02', 'h_rpdac_c02') + kind_obs('C02', ['guard'])
 
 
 def c03():
@@ -224,7 +253,8 @@ def c03():
 
 
 def c04():
-    obs = pfc_family('C04', 'pfc.ids', 'h_pfc_c04')
+    obs = pfc_family('C04', 'pfc.ids', 'h_pfc_c04', deep4=True)
+    obs += rpdac_family('C04', 'c04', 'h_rpdac_c04')
     obs += pfc_family('C04', 'pfc.strs', 'h_pfc_c04x', quick_shapes=[[2, 2, 2], [1, 2, 2]])
     obs += iter_obs('C04', which=('contiguous',))
     return obs
@@ -243,11 +273,11 @@ def c06():
 def c07():
     obs = []
     # buffer growth: MEMALLOC hook 2..4 so that 2*len crosses the reservation exactly / by one
-    for sh, bs, ma, tier in [([2, 2, 2], 2, 2, Q), ([1, 2, 2], 2, 3, Q), ([2, 1, 2], 2, 4, Q), ([2, 2, 2], 3, 2, Q),
+    for sh, bs, ma, tier in [([3], 2, 2, Q), ([2], 2, 1, Q), ([2, 2], 2, 2, T), ([2, 2, 2], 2, 2, T), ([1, 2, 2], 2, 3, T), ([2, 1, 2], 2, 4, T), ([2, 2, 2], 3, 2, T),
                              ([2, 2, 2, 2], 2, 2, T), ([1, 1, 1], 2, 2, T), ([2, 2, 1], 2, 3, T), ([3, 3, 3], 2, 2, T), ([1, 2, 2], 3, 2, T)]:
         n = len(sh); l = max(sh) if max(sh) > 2 else 2
         obs.append(pfc('c07.pfc.grow.len%s.bs%d.m%d' % (''.join(map(str, sh)), bs, ma), 'C07', 'h_pfc_c01', n, l, bs, memalloc=ma, defs={'LENV': lenv(sh)}, tier=tier,
-                       timeout=900 if tier == Q else 1500))
+                       timeout=900 if tier == Q else 3600))
     obs += pfc_family('C07', 'pfc.hist', 'h_pfc_c07hist', quick_bs=(2,), quick_shapes=[[1, 2, 2], [2, 2, 2]], sym_n2=False, timeout_q=900, thorough_extra=False, extra_defs={'HIST': 2})
     obs.append(unit('c07.reallocate', 'C07', 'h_reallocate', [], defs={'RLEN': 4}, cdefs={'IR2C_MAXBYTES': 16, 'IR2C_MAXELEMS': 8}, unwind=18, bounds='Reallocate(uchar**/int**) on 4 symbolic entries'))
     obs += [o for o in dac_obs('C07', what=('access',)) if 'fulllist' not in o.name]
@@ -261,6 +291,7 @@ def c08():
     obs += pfc_family('C08', 'pfc.pure', 'h_pfc_c14s', quick_bs=(2,), quick_shapes=[[1, 2, 2]], sym_n2=False, timeout_q=600, thorough_extra=False)
     obs += dac_obs('C08', what=('saveload', 'bvls'))
     obs += logseq_obs('C08')
+    obs += coder_obs('C08', ('tree',))
     return obs
 
 
@@ -321,6 +352,30 @@ def c17():
     return obs
 
 
+CODER_TUS = ['utils/Coder/StatCoder.cpp', 'utils/Coder/DecodingTree.cpp', 'utils/Coder/DecodingTable.cpp', 'utils/VByte.cpp', 'libcds/src/utils/BitString.cpp']
+
+
+def coder_obs(prop, what):
+    obs = []
+    c = {'IR2C_MAXBYTES': 16, 'IR2C_MAXELEMS': 16, 'VS_CAP': 96}
+    if 'encode' in what:
+        for ns, mb, tier in [(2, 20, Q), (3, 12, Q), (3, 20, T), (4, 9, T)]:
+            obs.append(O('%s.statcoder.encode.s%d.b%d' % (prop.lower(), ns, mb), prop, 'h_coder.cpp', 'h_statcoder_encode', CODER_TUS, defs={'NSYM': ns, 'MAXBITS': mb}, cdefs=c,
+                         unwind=8, unwindset={'^(h_|_ZL)': 260}, tier=tier, timeout=900, solver='kissat',
+                         bounds='any code table (codeword lengths 1..%d bits), any %d-symbol string, any start bit offset 0..7' % (mb, ns)))
+    if 'tree' in what:
+        shapes = [('l2', '{0,0,1,0,1,1}', 6, 2, Q), ('l3r', '{0,0,1,0,0,1,0,1,1,1}', 10, 3, Q), ('l3l', '{0,0,0,1,0,1,1,0,1,1}', 10, 3, T)]
+        for nm, bits, nb, nl, tier in shapes:
+            obs.append(O('%s.dectree.save.%s' % (prop.lower(), nm), prop, 'h_coder.cpp', 'h_dectree_save', CODER_TUS, defs={'TREEBITS': bits, 'NTREEBITS': nb, 'NLEAVES': nl}, cdefs=dict(c, IR2C_MAXELEMS=8),
+                         unwind=12, unwindset={'^(h_|_ZL)': 100, '_ZNSo5write': 33, '_ZNSi4read': 33}, tier=tier, timeout=1800,
+                         bounds='decoding subtree of %d leaves (shape %s), symbolic leaf symbols and prefix: save, save, load, save' % (nl, nm)))
+    return obs
+
+
+def c18():
+    return coder_obs('C18', ('encode', 'tree'))
+
+
 def c19():
     return bitseq_obs('C19')
 
@@ -345,7 +400,24 @@ def c10():
     return obs
 
 
-TABLE = {'C10': c10, 'C01': c01, 'C02': c02, 'C03': c03, 'C04': c04, 'C06': c06, 'C07': c07, 'C08': c08, 'C12': c12, 'C13': c13, 'C14': c14,
+def blocks_ob(name, prop, n, l, threads, k, unwind, tier=Q, timeout=2400, **kw):
+    defs = {'NSTR': n, 'LMAX': l, 'THREADS': threads, 'QCAP': n}
+    cdefs = {'VERIF_MAXT': threads + 1, 'VERIF_K': k, 'VERIF_MAXM': 3 + threads + 1, 'IR2C_MAXELEMS': 16, 'IR2C_MAXBYTES': 32}
+    return O(name, prop, 'h_blocks_par.cpp', 'h_blocks_par', [], defs=defs, cdefs=cdefs, unwind=unwind, tier=tier, timeout=timeout, engine='E2', e2_setup='h_blocks_setup', mem_gb=10,
+             unwindset={'^h_blocks_setup': 4 * (n + 2) * (l + 2), '^(_ZL|ir2c_str|ir2c_mem)': 4 * (l + 3)},
+             bounds='real block constructor, %d symbolic strings of 1..%d bytes, symbolic cut size (every block layout), %d worker thread(s), every schedule with at most %d context switches; per-block builder replaced by name' %
+                    (n, l, threads, k - 1), **kw)
+
+
+def c09():
+    obs = []
+    obs.append(blocks_ob('c09.blocks.n2l1.w1.k6', 'C09', 2, 1, 1, 6, 5))
+    obs.append(blocks_ob('c09.blocks.n2l1.w2.k6', 'C09', 2, 1, 2, 6, 5, tier=T, timeout=10800))
+    obs.append(blocks_ob('c09.blocks.n3l1.w1.k7', 'C09', 3, 1, 1, 7, 6, tier=T, timeout=10800))
+    return obs
+
+
+TABLE = {'C09': c09, 'C10': c10, 'C18': c18, 'C01': c01, 'C02': c02, 'C03': c03, 'C04': c04, 'C06': c06, 'C07': c07, 'C08': c08, 'C12': c12, 'C13': c13, 'C14': c14,
          'C15': c15, 'C16': c16, 'C17': c17, 'C19': c19}
 
 
